@@ -339,6 +339,17 @@ def dup_cases():
             out.append(("dup:word_member:%d:%d%d" % (n, a, b),
                         "word%d S\n{\n%s}\n\nfn main() -> i32\n{\n\treturn: 0\n}\n" % (8 * n if n in (2, 4) else 32,
                         "".join("\t%s: %s,\n" % (x, "u8" if n in (2, 4) else ("u16" if q == 0 else "u8")) for q, x in enumerate(names))), {426}))
+    # duplicates with a like-named declaration of the *other* namespace in between, before or after (constants and structures
+    # share a name legally; two constants or two structures never do): every order of the three declarations
+    trios = {
+        "two_constants_one_structure": (["const Twin: i32 = 1;", "const Twin: i32 = 2;", "struct Twin\n{\n\ta: i32,\n}"], 423),
+        "two_structures_one_constant": (["struct Twin\n{\n\ta: i32,\n}", "struct Twin\n{\n\tb: u8,\n}", "const Twin: i32 = 1;"], 425),
+        "two_functions_one_constant": (["fn twin()\n{\n}", "fn twin() -> i32\n{\n\treturn: 1\n}", "const twin: i32 = 1;"], 421),
+    }
+    for tname, (decls3, code) in trios.items():
+        for order in itertools.permutations(range(3)):
+            src = "\n\n".join([decls3[k] for k in order] + ["fn main() -> i32\n{\n\treturn: 0\n}"]) + "\n"
+            out.append(("dup:%s:%s" % (tname, "".join(map(str, order))), src, {code}))
     out.append(("dup:param_vs_constant", "const x: i32 = 1;\n\nfn f(x: i32)\n{\n}\n\nfn main() -> i32\n{\n\treturn: 0\n}\n", {424}))
     return out
 
